@@ -152,3 +152,69 @@ class GetAdjacentRequirements:
         )
 
     modifies = ()
+
+
+# ------------------------------------------------------------------ point insertion (C18)
+def _split_image(c, m, x, y, a, b):
+    """(a, b) is an image of a shaded cell of m when column x and row y are split in two."""
+    def orig(v, t, s):
+        return c.or_(c.and_(s == v, s <= t), c.and_(s + 1 == v, s >= t))
+
+    alts = []
+    for sx in (a, a - 1):
+        for sy in (b, b - 1):
+            alts.append(c.and_(c.shaded(m, sx, sy), orig(a, x, sx), orig(b, y, sy)))
+    return c.or_(*alts)
+
+
+@contract("MeshPatt._add_point_new_perm", params={"self": "Mesh", "x": "int", "y": "int"}, returns="Perm", props=("C18",), assumed=True)
+class AddPointNewPerm:
+    # ASSUMED (the body threads one stateful iterator through two generator expressions, outside the
+    # subset; the bounded layer C18.add_point decides it): the pattern with a new point at position x
+    # with value y, values >= y moved up
+    def requires(c, self, x, y):
+        n = c.len(self.pattern)
+        return c.and_(c.is_mesh(self), 0 <= c.int(x), c.int(x) <= n, 0 <= c.int(y), c.int(y) <= n)
+
+    def ensures(c, self, x, y, result):
+        n = c.len(self.pattern)
+        p = self.pattern
+        return c.and_(
+            c.len(result) == n + 1,
+            result[x] == y,
+            c.forall(0, n, lambda i: result[c.ite(c.int(i) < x, i, i + 1)] == c.ite(p[i] < y, p[i], p[i] + 1)),
+            c.is_perm(result),
+        )
+
+
+@contract("MeshPatt.add_point", params={"self": "Mesh", "pos": "Cell", "shade_dir": "int"}, returns="Mesh", props=("C18",))
+class AddPoint:
+    # new point in the (unshaded) cell pos; the shading is split along the new lines; a direction adds
+    # the two cells on that side of the new point
+    defaults = {"shade_dir": -1}
+
+    def requires(c, self, pos, shade_dir):
+        return c.and_(c.is_mesh(self), _cell_ok(c, self, pos), c.not_(c.shaded(self, pos[0], pos[1])))
+
+    def ensures(c, self, pos, shade_dir, result):
+        n = c.len(self.pattern)
+        x, y = c.int(pos[0]), c.int(pos[1])
+        p, r = self.pattern, result.pattern
+        d = c.int(shade_dir)
+
+        def extra(a, b):
+            east = c.and_(d == 0, a == x + 1, c.or_(b == y, b == y + 1))
+            north = c.and_(d == 1, b == y + 1, c.or_(a == x, a == x + 1))
+            west = c.and_(d == 2, a == x, c.or_(b == y, b == y + 1))
+            south = c.and_(d == 3, b == y, c.or_(a == x, a == x + 1))
+            return c.or_(east, north, west, south)
+
+        return c.and_(
+            c.len(r) == n + 1,
+            r[x] == y,
+            c.forall(0, n, lambda i: r[c.ite(c.int(i) < x, i, i + 1)] == c.ite(p[i] < y, p[i], p[i] + 1)),
+            c.forall_cell(lambda a, b: c.iff(c.shaded(result, a, b), c.or_(_split_image(c, self, x, y, a, b), extra(a, b)))),
+            c.is_mesh(result),
+        )
+
+    modifies = ()
